@@ -399,6 +399,21 @@ def c_exhaustive(ctx):
                 if isinstance(a, ast.Call) and src(a.func) == cls and any(k.arg == "label" and src(k.value) == want for k in a.keywords):
                     fills += 1
                     break
+    # a break/continue that no loop has bound keeps label None; slide() treats that as a no-op, so the statement would be accepted and silently skipped.  The flow is rejected
+    # when it is initialised (F132) - or the expansion itself rejects it
+    init_fn = find_function(ctx.tree.ast(SM), "initialize_flow")
+    rejects = False
+    for holder in [init_fn, ee]:
+        if holder is None:
+            continue
+        for i in ast.walk(holder):
+            if isinstance(i, ast.If) and re.search(r"\b(Break|Continue)\b", src(i.test)) and "label" in src(i.test) and "None" in src(i.test) \
+                    and any(isinstance(x, ast.Raise) for st_ in i.body + i.orelse for x in ast.walk(st_)):
+                rejects = True
+    ctx.check("C12.c.break-continue", SM, "initialize_flow", "unbound break/continue is rejected", rejects,
+              "a Break/Continue without a target label after the expansion raises a syntax error" if rejects else
+              "`break` / `continue` outside of a loop compiles to Break(label=None) / Continue(label=None): the flow is accepted, the statement is skipped at run time and the "
+              "statements behind it execute", line=(init_fn.lineno if init_fn else ee.lineno))
     ctx.check("C12.c.break-continue", EXP, "expand_elements", "labels filled", fills == 2,
               "unlabeled Continue gets the begin label (index 0) and Break the end label (index 1) of the enclosing loop", line=ee.lineno)
     source_immutable(ctx, mod)
@@ -549,7 +564,9 @@ def d_label_tables(ctx):
         iv, ev = (l.target.elts[0].id, l.target.elts[1].id) if isinstance(l.target, ast.Tuple) and len(l.target.elts) == 2 else (None, None)
         body_ok = False
         for i in l.body:
-            if isinstance(i, ast.If) and re.sub(r"\s", "", src(i.test)) == "isinstance(%s,Label)" % ev and not i.orelse:
+            # (the other side of the Label test may only reject: e.g. an unbound break/continue raises)
+            if isinstance(i, ast.If) and re.sub(r"\s", "", src(i.test)) == "isinstance(%s,Label)" % ev and not any(
+                    isinstance(x, (ast.Continue, ast.Break, ast.Return, ast.Assign, ast.AugAssign)) for st_ in i.orelse for x in ast.walk(st_)):
                 for st_ in i.body:
                     # any spelling of the store: element_labels[<name>] = <index> / .update({<name>: <index>})
                     for a_ in ast.walk(st_):
